@@ -57,10 +57,12 @@ fn hyphenate_impl(hyphenater: &Hyphenator, list: &[ds::Horizontal]) -> Vec<ds::H
 
         // Find the place to start hyphenating
         // TeX.2021.896
-        let hyphenation_font: Option<u32> = loop {
+        let hyphenation_font: Option<(u32, bool)> = loop {
             let Some(elem) = list.get(i) else { break None };
             enum Action {
-                Start { font: u32 },
+                // left_boundary: the word starts with a ligature that absorbed the left
+                // boundary, so the boundary takes part in the reconstitution (TeX.2021.903).
+                Start { font: u32, left_boundary: bool },
                 Continue,
                 // Equivalent to done1 in Knuth's TeX.
                 Abort,
@@ -75,7 +77,10 @@ fn hyphenate_impl(hyphenater: &Hyphenator, list: &[ds::Horizontal]) -> Vec<ds::H
                     // parameters.
                     if char.char.is_ascii_alphabetic() {
                         if hyf_char > 0 && hyf_char <= 255 {
-                            Action::Start { font: char.font }
+                            Action::Start {
+                                font: char.font,
+                                left_boundary: false,
+                            }
                         } else {
                             Action::Abort
                         }
@@ -92,6 +97,7 @@ fn hyphenate_impl(hyphenater: &Hyphenator, list: &[ds::Horizontal]) -> Vec<ds::H
                                 if hyf_char > 0 && hyf_char <= 255 {
                                     Action::Start {
                                         font: ligature.font,
+                                        left_boundary: ligature.includes_left_boundary,
                                     }
                                 } else {
                                     Action::Abort
@@ -115,8 +121,11 @@ fn hyphenate_impl(hyphenater: &Hyphenator, list: &[ds::Horizontal]) -> Vec<ds::H
                 _ => Action::Abort,
             };
             match action {
-                Action::Start { font } => {
-                    break Some(font);
+                Action::Start {
+                    font,
+                    left_boundary,
+                } => {
+                    break Some((font, left_boundary));
                 }
                 Action::Continue => {
                     i += 1;
@@ -129,7 +138,7 @@ fn hyphenate_impl(hyphenater: &Hyphenator, list: &[ds::Horizontal]) -> Vec<ds::H
                 }
             }
         };
-        let Some(hyphenation_font) = hyphenation_font else {
+        let Some((hyphenation_font, starts_with_left_boundary)) = hyphenation_font else {
             continue;
         };
         // It's still possible we won't hyphenate based on the node that ends the
@@ -263,10 +272,27 @@ fn hyphenate_impl(hyphenater: &Hyphenator, list: &[ds::Horizontal]) -> Vec<ds::H
             continue;
         }
 
+        // TeX.2021.903: a ligature made of the left boundary alone, directly before the
+        // word, is rebuilt from scratch together with the word.
+        let starts_with_left_boundary = match out.last() {
+            Some(ds::Horizontal::Ligature(l))
+                if l.includes_left_boundary
+                    && l.original_chars.is_empty()
+                    && l.font == hyphenation_font =>
+            {
+                out.pop();
+                true
+            }
+            _ => starts_with_left_boundary,
+        };
+
         let mut main_iter = hyphenater.lig_kern_program.run_with_options(
             s.chars(),
             RunOptions {
-                disable_left_boundary: false,
+                // The word may follow punctuation or a font kern that were stepped over
+                // above: the left boundary is then not next to the first letter and must
+                // not be applied a second time.
+                disable_left_boundary: !starts_with_left_boundary,
                 right_boundary_override,
             },
         );
